@@ -2,6 +2,7 @@ package checks
 
 import (
 	"fmt"
+	"math"
 	"reflect"
 	"strings"
 
@@ -224,6 +225,13 @@ func init() {
 				},
 			},
 			{
+				// range bounds and indexes whose run-time value lies outside the
+				// int domain take their own paths through the VM
+				Name: "edge-operands", Serial: true,
+				N:   func(string) uint64 { return 1 },
+				Run: c05EdgeOperands,
+			},
+			{
 				Name: "large",
 				N: func(tier string) uint64 {
 					if tier == "thorough" {
@@ -245,6 +253,69 @@ func init() {
 			return out
 		},
 	})
+}
+
+type c05Edge struct {
+	F, H       float64
+	G          float32
+	U          uint64
+	V          uint
+	A, B       int
+	I64        int64
+	AnyF, AnyG interface{}
+	Ints       []int
+}
+
+var c05EdgeSources = []string{
+	"1..F", "F..5", "F..H", "F..G", "G..F", "U..5", "1..U", "U..U", "V..A", "A..F", "I64..F", "AnyF..AnyG", "AnyF..5", "1..AnyG", "A..B",
+	"len(F..A)", "len(U..5) + len(1..F)", "map(U..5, {#})", "[1..F, 2]", "[0, F..5, U..5]", "A in 1..F", "A in U..5", "A not in F..H", "(F..5)[0:1]", "(1..F)[:]",
+	"count(F..5, {# > 0}) + count(1..A, {# > 0})", "map(1..A, {len(#..F)})", "filter(1..A, {# in U..5})", "all(1..A, {len(F..#) == 0})",
+	"{\"a\": 1..F, \"b\": U..5}", "P(1..F)", "P(F..5) + P(U..5)", "1..F == F..1", "len(F..5) > 0 ? 1..F : U..5", "Ints[A:B]", "Ints[A:]", "len(Ints[:B])",
+}
+
+func (c05Edge) P(x []int) int { return len(x) }
+
+func c05EdgeOperands(c *runner.Ctx, idx uint64) {
+	fs := []float64{-1e30, 1e30, 9223372036854775807, -9223372036854775808, -9.3e18, math.NaN(), math.Inf(1), math.Inf(-1), 2.5, 3, -2, 0}
+	us := []uint64{math.MaxUint64, 1 << 63, 1<<63 - 1, 5, 0}
+	var es []interface{}
+	for i, f := range fs {
+		for j, u := range us {
+			h := fs[(i+j+1)%len(fs)]
+			e := c05Edge{F: f, H: h, G: float32(h), U: u, V: uint(u), A: 3 - j, B: i - 2, I64: int64(u >> 1), AnyF: f, AnyG: u, Ints: []int{1, 2, 3}}
+			if (i+j)%3 == 0 {
+				e.AnyF, e.AnyG = u, float32(f)
+			}
+			es = append(es, e)
+		}
+	}
+	for _, src := range c05EdgeSources {
+		// typed: the checker sees the struct; untyped: every identifier is
+		// resolved at run time, which is how a float reaches a range bound
+		for oi, on := range []string{"typed optimize", "typed no-optimize", "untyped optimize", "untyped no-optimize"} {
+			var opts []expr.Option
+			if oi < 2 {
+				opts = append(opts, expr.Env(c05Edge{}))
+			}
+			if oi%2 == 1 {
+				opts = append(opts, expr.Optimize(false))
+			}
+			c.Begin(src)
+			p, co := SafeCompile(src, opts...)
+			c.Eval(1)
+			if co.Panic != nil {
+				c.Violate("compile-panic", "Compile panicked", map[string]interface{}{"source": src, "options": on, "panic": fmt.Sprint(co.Panic)})
+				continue
+			}
+			if co.Failed() || p == nil {
+				c.Count("edge_sources_rejected", 1)
+				continue
+			}
+			c.Count("edge_programs", 1)
+			c.Distinct("edge|" + src + "|" + on)
+			c05Program(c, src, p, es, "edge-operands "+on)
+		}
+	}
 }
 
 func c05Term(c *runner.Ctx, t *term.Term, r *runner.Rng) {
